@@ -24,9 +24,14 @@ type Invocation struct {
 type Problem struct {
 	Sig string
 	Msg string
+	// for reply mismatches: the request member and the reply item involved (-1 = none)
+	Member, Item int
+	ItemText     string
 }
 
-func problem(sig, f string, a ...any) *Problem { return &Problem{Sig: sig, Msg: fmt.Sprintf(f, a...)} }
+func problem(sig, f string, a ...any) *Problem {
+	return &Problem{Sig: sig, Msg: fmt.Sprintf(f, a...), Member: -1, Item: -1}
+}
 
 // MatchReplies checks the outbound records observed for ONE inbound record
 // against the reference expectation: at most one outbound message, array iff
@@ -84,11 +89,13 @@ func MatchReplies(prop string, exp refrpc.Record, wire [][]byte, invs []Invocati
 	}
 	// Align reply members with request members, in order.
 	var why string
+	whyMember, whyItem := -1, -1
 	var rec func(i, j int, used map[int]bool) bool
 	rec = func(i, j int, used map[int]bool) bool {
 		if i == len(exp.Members) {
 			if j != len(parsed) {
 				why = fmt.Sprintf("reply member #%d %q matches no request member (stray or duplicate)", j, items[j])
+				whyMember, whyItem = -1, j
 				return false
 			}
 			return true
@@ -105,12 +112,14 @@ func MatchReplies(prop string, exp refrpc.Record, wire [][]byte, invs []Invocati
 		}
 		if j >= len(parsed) {
 			why = fmt.Sprintf("request member #%d (%s %q) has no reply", i, m.Class, m.Raw)
+			whyMember, whyItem = i, -1
 			return false
 		}
 		r := parsed[j]
 		ok, inv, w := satisfies(m, r, invs, used)
 		if !ok {
 			why = fmt.Sprintf("reply member #%d %q does not answer request member #%d %q: %s", j, items[j], i, m.Raw, w)
+			whyMember, whyItem = i, j
 			return false
 		}
 		if inv >= 0 {
@@ -120,7 +129,12 @@ func MatchReplies(prop string, exp refrpc.Record, wire [][]byte, invs []Invocati
 		return rec(i+1, j+1, used)
 	}
 	if !rec(0, 0, map[int]bool{}) {
-		return problem(prop+"/reply-mismatch", "%s; inbound members %d, outbound %q", why, len(exp.Members), wire)
+		p := problem(prop+"/reply-mismatch", "%s; inbound members %d, outbound %q", why, len(exp.Members), wire)
+		p.Member, p.Item = whyMember, whyItem
+		if whyItem >= 0 && whyItem < len(items) {
+			p.ItemText = string(items[whyItem])
+		}
+		return p
 	}
 	// Handler invocations: exactly one per member that must run, none otherwise.
 	need := map[string]int{}
